@@ -419,18 +419,6 @@ Proof.
     unfold stop_eff, ocleanup, set_ph, clear_sw, set_sw, rm_regs, rm_cnt; cbn; apply filter_In; (split; [exact Hx|rewrite Hk; reflexivity]).
 Qed.
 
-(* ---- finding 7: the callback of mode_<m>_started does not know which start it belongs to ------------------------------------ *)
-Definition ex_stale_started_hist : list op :=
-  [Start 0 10; QStarted 0; Stop 0; QStopped 0; CbStopped 0; Start 0 10; QStarted 0].
-
-Lemma start_hook_once_refuted_l :
-  exists h m, let s := run_state true h in
-    ph s m = Active /\
-    proj m (run_events true h) = [0; 1; 2; 3; 4; 5; 0; 1; 2] /\
-    r_status (snd (step true s (CbStarted m))) = 1 /\
-    r_status (snd (step true (fst (step true s (CbStarted m))) (CbStarted m))) = 1.
-Proof. exists ex_stale_started_hist, 0. vm_compute. repeat split. Qed.
-
 (* ---- examples ------------------------------------------------------------------------------------------------------------- *)
 (* callback 1 (timed, 2 s, registered through the mode while switch 7 is already held) and foreign callback 100 with the same
    parameters; the mode stops 0.5 s later; at the deadline only the foreign callback is invoked *)
